@@ -188,4 +188,42 @@ def param_name(fn, index, skip_self=True):
     return args[index].arg
 
 
+def nfacts(cfg, node):
+    """branch facts that hold at node, as a set of (source text, polarity) with negative comparison
+    operators normalised (`x is not None` true == `x is None` false) — independent of which arm
+    of an if/else the code sits in"""
+    from ..engine.dtable import normalise
+
+    out = set()
+    for e, pol in facts_at(cfg, node):
+        e2, p2 = normalise(e, pol)
+        out.add((unparse(e2), p2))
+    return out
+
+
+def flat(ctx_or_repo, fn, depth=2, skip=(), cross_public=False):
+    """helper-transparent view of fn (engine/inline.py)"""
+    from ..engine import inline
+
+    repo = getattr(ctx_or_repo, "repo", ctx_or_repo)
+    return inline.flatten(repo, fn, depth=depth, skip=skip, cross_public=cross_public)
+
+
+def copies_of(defs, name, depth=4):
+    """names that are plain copies of ``name`` (x = name; y = x), name included"""
+    out = {name}
+    for _ in range(depth):
+        grew = False
+        for n, ds in defs.items():
+            if n in out or "." in n:
+                continue
+            vals = [d.value for d in ds if d.kind in ("assign", "walrus")]
+            if vals and len(vals) == len(ds) and all(isinstance(v, ast.Name) and v.id in out for v in vals):
+                out.add(n)
+                grew = True
+        if not grew:
+            break
+    return out
+
+
 __all__ = [n for n in dir() if not n.startswith("_")]
